@@ -16,6 +16,9 @@ reads the same bytes.  `ropenlog` (harness/jlsrun_k_repair.h) runs the real jls_
 Compared per image, for TWO consecutive opens: the return code of jls_rd_open, the complete backend log of the open
 (every ftruncate, every write(2) with offset and bytes, every fsync) and the file afterwards (length + FNV-1a 64).
 
+Genuine defect classes of the C are reported through ctx.violation(..., sig=<signature>) (see DEFECT_SIGS); a
+difference between model and implementation is a violation without signature.
+
 Exclusion (stated, as in WM.py): for 24-bit signals the payload and payload CRC of re-created FSR SUMMARY chunks are
 not compared (the C summarises uninitialised memory) and the file hash is not compared for such images.
 """
@@ -33,14 +36,41 @@ RPF = {0: "none", 1: "fuel (non-termination)", 2: "reads core->buf beyond what w
        4: "payload > 1 MiB (realloc path)", 5: "writer-model fault", 6: "heap overflow of a level/sample buffer", 7: "division by zero parameters",
        8: "file shorter than 24 bytes", 9: "chunk content not representable"}
 BATCH = 16
+# genuine defect classes of the C (stable signatures for known_findings.json)
+DEFECT_SIGS = {
+    "end_inplace": "repair-end-chunk-not-at-end-of-file",           # END header written over a chunk in the middle of the file (fixed by /repo 6df24a0)
+    "second_open": "repair-second-open-not-quiet",                  # the second open of a repaired file writes again / fails
+    "uninit_ppl": "repair-uninitialised-payload-prev-length",       # a fresh chunk header written in place keeps stack garbage in payload_prev_length
+    "wrong_chunk": "repair-fsr-level-walk-no-tag-check",            # jls_core_repair_fsr loads whatever chunk follows an INDEX as its SUMMARY (model fault 9)
+    "cycle": "open-hangs-on-cyclic-item-next",                      # a CRC-valid chunk whose item_next points to itself / backwards: jls_rd_open never returns
+    "blind_spot": "rd-chunk-end-discards-complete-last-chunk",       # backward scan never tests the first 8-byte slot of a window: a complete chunk 1024+1000k bytes before the end is cut off
+    "segv": "rd-chunk-end-index-underflow",                         # jls_core_rd_chunk_end: (length - 32) / 8 underflows for a window shorter than a header
+}
 
 
 # ---------------------------------------------------------------- programs
+def no_fsr_program(rng):
+    """annotations on signal 0 (VSR) and user data only: no jls_core_repair_fsr runs, so nothing but jls_rd_open itself positions
+    the raw before the END chunk is written"""
+    ops = ["wopen"]
+    ts = 0
+    for _ in range(rng.randrange(4, 36)):
+        r = rng.random()
+        if r < 0.75:
+            ops.append("anno 0 %d 0 1 0 2 %s" % (ts, rng.choice(["e", "g%d.%d" % (rng.randrange(1, 14), rng.randrange(1 << 20))])))
+            ts += rng.choice([1, 7, 7, 50])
+        else:
+            ops.append("ud %d 1 g%d.%d" % (rng.randrange(1, 4000), rng.randrange(1, 9), rng.randrange(1000)))
+    return ops
+
+
 def gen_programs(rng, tier, n):
-    """-> list of (ops list without wclose, meta)"""
+    """-> list of (ops list without wclose, meta); the first program has no FSR signal"""
     out = []
     for i in range(n):
-        if rng.random() < 0.55:
+        if i == 0:
+            out.append((no_fsr_program(rng), dict(gen="nofsr")))
+        elif rng.random() < 0.55:
             ops, sigs, has_omit = crashlib.writer_program(rng, tier)
             out.append((ops, dict(gen="C17deep", has_omit=has_omit)))
         else:
@@ -96,6 +126,16 @@ def make_images(rng, tier, pr, per_program):
         out.append((["image %d %d" % (k, j)], cls, (k, j)))
     final, chunks = pr["final"], pr["chunks"]
     flen = len(final)
+    # the backward scan of jls_core_rd_chunk_end works in 1024-byte windows that overlap by 24 bytes: cut a closed file inside a long
+    # chunk so that the header of the chunk before it lies at / just below the first window's lower edge
+    big = [i for i in range(1, len(chunks)) if chunks[i][2] > 1100]
+    if big:
+        i = rng.choice(big)
+        h = chunks[i - 1][0]
+        for dd in (0, 8, 16, 24, -8):
+            L = h + 1024 + dd
+            if chunks[i][0] < L < chunks[i][0] + chunks[i][2]:
+                out.append((["image %d 0" % nlog, "trunc %d" % L], "closed_truncated_window_edge", (nlog, 0)))
     extra = max(6, per_program // 4)
     for _ in range(extra):
         r = rng.random()
@@ -293,6 +333,11 @@ def diff_case(c):
         f = c.get("impl_fault") or "?"
         if m and m[0]["fault"] == 3 and "SIGSEGV" in f:
             c["impl_logs"] = []
+            c["defect"] = ("segv", "jls_core_rd_chunk_end reads far outside data[] (model fault 3), implementation: " + f)
+            return None
+        if m and m[0]["fault"] == 1 and "TIMEOUT" in f:
+            c["impl_logs"] = []
+            c["defect"] = ("cycle", "jls_rd_open does not terminate (model: fuel exhausted = a cyclic item_next chain), implementation: " + f)
             return None
         return "implementation fault: %s (model: %s)" % (f, "rc %d fault %d" % (m[0]["rc"], m[0]["fault"]) if m else c.get("model_raw", "no image"))
     if m is None:
@@ -306,6 +351,11 @@ def diff_case(c):
         if m[k]["fault"] == 8 and a[k]["rc"] != 0 and not ilog:
             c["short_uninit"] = True      # file shorter than 24 bytes: the C tests an uninitialised length; any error, no writes
             continue
+        if m[k]["fault"] == 9 and a[k]["rc"] == m[k]["rc"] and len(ilog) == len(m[k]["log"]):
+            # the C memcpy'd a chunk of another kind / signal into lvl->summary (or lvl->index): the model can not carry its header
+            # fields; same rc and same number of backend calls, the bytes derived from that buffer are not compared
+            c["defect"] = ("wrong_chunk", t + "jls_core_repair_fsr loaded a chunk that is not the SUMMARY/INDEX of the level it walks (model fault 9: %s)" % RPF[9])
+            return None
         if m[k]["fault"]:
             return t + "the model left its domain: fault %d (%s); implementation rc %d, %d log entries" % (
                 m[k]["fault"], RPF.get(m[k]["fault"], "?"), a[k]["rc"], a[k]["nlog"])
@@ -395,26 +445,84 @@ def replay_text(c):
                 c["cls"], c["point"], script, vlib.BUILD, vlib.BUILD, c["diff"], c.get("impl_raw", "")[:400], c.get("model_raw", "")[:300]))
 
 
-def run_rp(ctx, n=None, per_program=None, variant="plain"):
-    """Assumes vlib.build was called (kinds prog + repair in the harness, drivers drv_wmodel.ml drv_repair.ml in the model)."""
+def crc32c(data):
+    crc = 0xFFFFFFFF
+    for b in data:
+        crc ^= b
+        for _ in range(8):
+            crc = (crc >> 1) ^ (0x82F63B78 if crc & 1 else 0)
+    return crc ^ 0xFFFFFFFF
+
+
+def cyclic_variant(final, chunks):
+    """a closed file whose first SOURCE_DEF chunk links to itself (header CRC recomputed), or None"""
+    for off, tag, tot in chunks:
+        if tag == 1:
+            b = bytearray(final)
+            struct.pack_into("<Q", b, off, off)
+            struct.pack_into("<I", b, off + 28, crc32c(bytes(b[off:off + 28])))
+            return bytes(b)
+    return None
+
+
+def run_cycle_case(ctx, final, chunks):
+    """one crafted image (not a crash image): the C must be killed by the watchdog, the model must run out of fuel.
+    -> None (no SOURCE_DEF chunk), or (agree, text)"""
+    b = cyclic_variant(final, chunks)
+    if b is None:
+        return None
+    d = os.path.join(ctx.tmp, "rp")
+    os.makedirs(d, exist_ok=True)
+    path = os.path.join(d, "cyclic.img")
+    with open(path, "wb") as f:
+        f.write(b)
+    scratch = os.path.join(ctx.tmp, "scratch_rp")
+    os.makedirs(scratch, exist_ok=True)
+    script = "load %s;ropenlog;hash" % path
+    impl = vlib.run_c("plain", "repair", [script], args=[scratch, "timeout=4"], timeout=120)[0]
+    m = parse_model_line(_run_model([path + " 1"])[0])
+    text = ("crafted file: a properly closed file whose SOURCE_DEF chunk has item_next = its own offset, header CRC recomputed (%d bytes)\n"
+            "script: %s   (jlsrun repair <scratch> timeout=4)\nimplementation: %s\nmodel: %s\n"
+            "jls_core_scan_sources / _scan_signals and the repair walks follow item_next without any progress check.\n" % (len(b), script, impl, m))
+    agree = ("FAULT TIMEOUT" in impl) and bool(m) and m[0]["fault"] == 1
+    if not getattr(ctx, "rp_keep", False):
+        os.remove(path)
+    return agree, text, impl, m
+
+
+def run_rp(ctx, n=None, per_program=None, variant="plain", cycle=True):
+    """Assumes vlib.build was called (kinds prog + repair in the harness, drivers drv_wmodel.ml drv_repair.ml in the model).
+    Reports through ctx.violation: a model/implementation difference without signature; a genuine defect class of the C with its
+    signature (DEFECT_SIGS).  Returns the number of model/implementation differences."""
     n = n if n is not None else (10 if ctx.tier == "quick" else 60)
     per = per_program if per_program is not None else (60 if ctx.tier == "quick" else 120)
     progs = gen_programs(ctx.rng, ctx.tier, n)
     probes = probe_programs(ctx, [p[0] for p in progs])
     cases = []
     nprobe_fail = 0
+    first_closed = None
     for (ops, meta), pr in zip(progs, probes):
         if not pr["ok"] or len(pr["final"]) > 400000:
             nprobe_fail += 1
             continue
+        if first_closed is None and len(pr["final"]) < 100000:
+            first_closed = (pr["final"], pr["chunks"])
         for recipe, cls, point in make_images(ctx.rng, ctx.tier, pr, per):
-            cases.append(dict(ops=ops, recipe=recipe, cls=cls, point=point, nlog=len(pr["entries"]), flen=len(pr["final"])))
+            cases.append(dict(ops=ops, recipe=recipe, cls=cls, point=point, nlog=len(pr["entries"]), flen=len(pr["final"]), chunks=pr["chunks"]))
     compare_images(ctx, cases, variant=variant)
     dist, outcome = {}, {}
     nsum = nidx = 0
     nv = 0
+    ndef = {}
     second_writes = []
     biggest = 0
+
+    def defect(c, key, what):
+        ndef[key] = ndef.get(key, 0) + 1
+        if ndef[key] <= 5:
+            ctx.violation("rp_defect_%s_%d.txt" % (key, ndef[key]), replay_text(c) + "\ndefect class: %s\n%s\n" % (DEFECT_SIGS[key], what),
+                          "repair-on-open (%s): %s" % (c["cls"], what[:200]), sig=DEFECT_SIGS[key])
+
     for c in cases:
         dist[c["cls"]] = dist.get(c["cls"], 0) + 1
         a, m = c.get("impl"), c.get("model")
@@ -431,11 +539,30 @@ def run_rp(ctx, n=None, per_program=None, variant="plain"):
                     outcome["repaired_with_new_summaries"] = outcome.get("repaired_with_new_summaries", 0) + 1
             if a[0]["rc"] == 0 and (a[1]["rc"] != 0 or a[1]["nlog"] != 0):
                 second_writes.append(c)
+                if m and m[0].get("end_inplace"):
+                    defect(c, "end_inplace", "the repairing open wrote its END chunk header in the middle of the file (not at the end): the second open repairs again "
+                           "(rc %d, %d backend calls) - repair does not converge and overwrites a complete chunk each time" % (a[1]["rc"], a[1]["nlog"]))
+                else:
+                    defect(c, "second_open", "the second open of the repaired file is not quiet: rc %d, %d backend calls (first open: rc 0, %d calls)" % (
+                        a[1]["rc"], a[1]["nlog"], a[0]["nlog"]))
+            elif m and a[0]["rc"] == 0 and m[0].get("end_inplace"):
+                defect(c, "end_inplace", "the repairing open wrote its END chunk header in the middle of the file (not at the end); bytes of the old tail stay behind it")
+            # a closed file cut at L: the last chunk that lies completely below L is CRC-valid, the repair must not truncate below its end
+            if c["cls"].startswith("closed_truncated") and len(c["recipe"]) == 2 and c["recipe"][1].startswith("trunc ") and c.get("impl_logs") and c["impl_logs"][0]:
+                L = int(c["recipe"][1].split()[1])
+                ends = [off + tot for off, tag, tot in c["chunks"] if off + tot <= L]
+                e0 = c["impl_logs"][0][0]
+                if ends and e0[0] == "t" and e0[1] < max(ends):
+                    defect(c, "blind_spot", "file cut at %d: the last complete chunk ends at %d, but the repair truncated at %d (a complete, CRC-valid chunk was discarded; "
+                           "jls_core_rd_chunk_end never tests the candidate in the first 8 bytes of a 1024-byte window)" % (L, max(ends), e0[1]))
             if c.get("uninit_seen"):
                 outcome["uninit_ppl_written"] = outcome.get("uninit_ppl_written", 0) + 1
                 ctx.rp_uninit = getattr(ctx, "rp_uninit", []) + [c]
+                defect(c, "uninit_ppl", "the open wrote a chunk header in place whose payload_prev_length is uninitialised stack memory (differs from run to run)")
         else:
             o = "fault"
+        if c.get("defect"):
+            defect(c, c["defect"][0], c["defect"][1])
         outcome[o] = outcome.get(o, 0) + 1
         ko = c["cls"] + "/" + o
         outcome[ko] = outcome.get(ko, 0) + 1
@@ -445,16 +572,30 @@ def run_rp(ctx, n=None, per_program=None, variant="plain"):
             nv += 1
             if nv <= 40:
                 ctx.violation("rp_case_%d.txt" % nv, replay_text(c), "repair model and implementation differ (%s): %s" % (c["cls"], c["diff"][:160]))
+    # the crafted cyclic file: implementation hangs, model runs out of fuel
+    if cycle and first_closed is not None:
+        r = run_cycle_case(ctx, *first_closed)
+        if r is not None:
+            agree, text, impl, m = r
+            outcome["crafted_cycle"] = "hang" if agree else "other"
+            if agree:
+                ndef["cycle"] = 1
+                ctx.violation("rp_defect_cycle.txt", text, "jls_rd_open never returns on a file with a self-linked SOURCE_DEF chunk (watchdog: %s)" % impl[-40:], sig=DEFECT_SIGS["cycle"])
+            elif "FAULT" in impl or (m and m[0]["fault"] == 1):
+                nv += 1
+                ctx.violation("rp_cycle_mismatch.txt", text, "crafted cyclic file: model and implementation differ: %s / %s" % (impl[-60:], m and (m[0]["rc"], m[0]["fault"])))
     ctx.extra["distribution"] = dist
     ctx.extra["outcomes"] = outcome
+    ctx.extra["rp_defects"] = {DEFECT_SIGS[k]: v for k, v in ndef.items()}
     ctx.extra["rp_stats"] = dict(programs=len(progs), probe_failed=nprobe_fail, images=len(cases), opens_compared=2 * len(cases),
                                  summary_chunks_recreated=nsum, index_chunks_recreated=nidx, largest_file=biggest,
-                                 second_open_not_quiet=len(second_writes))
+                                 second_open_not_quiet=len(second_writes), model_differences=nv)
     ctx.extra["second_open_examples"] = [dict(cls=c["cls"], recipe=c["recipe"], impl=c["impl"], script_tail=";".join(c["ops"])[-300:]) for c in second_writes[:5]]
     ctx.rp_second = second_writes
     ctx.cov["rule"] = ("writer programs from crashlib.writer_program / WM.gen_case; images: every clean stop at structural positions, torn appends, torn in-place "
                        "writes, closed files, truncated closed files, closed / crash images with a damaged tail chunk, damaged file headers; per image two "
-                       "consecutive opens; compared: rc of jls_rd_open, complete backend log, resulting file; distinct = (program, recipe)")
+                       "consecutive opens; compared: rc of jls_rd_open, complete backend log, resulting file; distinct = (program, recipe); plus one crafted "
+                       "file with a cyclic item_next chain (watchdog vs fuel)")
     return nv
 
 
@@ -470,7 +611,7 @@ if __name__ == "__main__":
     ctx.extra, ctx.cov = {}, {}
     ctx.violations = []
     ctx.count = lambda *a, **k: None
-    ctx.violation = lambda name, text, what, **k: ctx.violations.append((name, text, what))
+    ctx.violation = lambda name, text, what, **k: ctx.violations.append((name, text, ("[sig %s] " % k["sig"] if k.get("sig") else "") + what))
     ctx.rp_keep = "keep" in sys.argv
     try:
         if "build" in sys.argv:
@@ -488,6 +629,7 @@ if __name__ == "__main__":
         print(json.dumps(ctx.extra["distribution"], sort_keys=True))
         print(json.dumps(ctx.extra["outcomes"], sort_keys=True))
         print(json.dumps(ctx.extra["rp_stats"], sort_keys=True))
+        print("defect classes:", json.dumps(ctx.extra["rp_defects"], sort_keys=True))
         for e in ctx.extra["second_open_examples"][:3]:
             print("second open not quiet:", json.dumps(e)[:600])
         print("%d images, %d mismatches, %.1fs" % (ctx.extra["rp_stats"]["images"], nv, time.time() - t0))
